@@ -1015,3 +1015,91 @@ Proof.
   - split; [cbn; lia|split; [cbn; lia|]]. intros t Ht. injection Ht as <-. cbn. lia.
 Qed.
 End C04_translated_bounded.
+
+(* ---- the bounded loops also say which bound they leave (undo_bound / redo_bound), so calls compose; lbuf_edit with the bound; and the edit-undo-redo
+   corollary once more with ONE hypothesis about an intermediate memory instead of three: `bnd B K` in the memory lbuf_opt returns (TrUndoOpt.tr_lbuf_opt
+   does not expose the struct block it leaves).  The splice of the edit, the undo and the redo then follow from conditions on the model (size_ok). *)
+From NV Require TrCmp4Chain.
+Section C04_translated_chain.
+Import Lia CLite CLiteProps CLiteExt GenCFuncs TrLbufBase TrUndoBase TrUndo TrUndoOpt TrUndoEdit TrSpliceMarks TrSpliceAll TrSpliceModels.
+Import TrCmp4 TrCmp4Loop TrCmp4Edit TrCmp4Marks TrCmp4Bound TrCmp4Chain.
+Local Open Scope Z_scope.
+
+Theorem C04_tr_lbuf_undo_bounded_b : forall (ext : nat -> list val -> mem -> res (val * mem)) (fuelR dR : nat), ext_is_replace ext fuelR dR ->
+  forall (bl bh : nat) (hblk : block) (d fuel : nat) (K : Z), K <= 2147483647 ->
+  forall (m : mem) (blk : block) (lb : lbuf) (B : Z),
+  urep Tc m bl blk bh hblk lb -> undo_ok lb -> 0 <= B -> bnd B K m blk hblk lb ->
+  undo_sizes fuelR (hist_u lb) (seq_at (hist lb) (hist_u lb - 1)) B lb -> (hist_u lb + 33 < fuel)%nat ->
+  match lbuf_undo lb with
+  | Some lb' => exists (m' : mem) (blk' : block),
+      callx ext cprog fuel (S (S (S (S d)))) F_lbuf_undo [VPtr bl 0] m = Ok (VInt 0, m') /\ urep Tc m' bl blk' bh hblk lb' /\
+      bnd (undo_bound (hist_u lb) (seq_at (hist lb) (hist_u lb - 1)) B lb) K m' blk' hblk lb'
+  | None => callx ext cprog fuel (S (S (S (S d)))) F_lbuf_undo [VPtr bl 0] m = Ok (VInt 1, m)
+  end.
+Proof. exact tr_lbuf_undo_bounded_b. Qed.
+Print Assumptions C04_tr_lbuf_undo_bounded_b.
+
+Theorem C04_tr_lbuf_redo_bounded_b : forall (ext : nat -> list val -> mem -> res (val * mem)) (fuelR dR : nat), ext_is_replace ext fuelR dR ->
+  forall (bl bh : nat) (hblk : block) (d fuel : nat) (K : Z), K <= 2147483647 ->
+  forall (m : mem) (blk : block) (lb : lbuf) (B : Z),
+  urep Tc m bl blk bh hblk lb -> redo_ok lb -> 0 <= B -> bnd B K m blk hblk lb ->
+  redo_sizes fuelR (length (hist lb) - hist_u lb) (seq_at (hist lb) (hist_u lb)) B lb -> (length (hist lb) - hist_u lb < fuel)%nat ->
+  match lbuf_redo lb with
+  | Some lb' => exists (m' : mem) (blk' : block),
+      callx ext cprog fuel (S (S (S (S d)))) F_lbuf_redo [VPtr bl 0] m = Ok (VInt 0, m') /\ urep Tc m' bl blk' bh hblk lb' /\
+      bnd (redo_bound (length (hist lb) - hist_u lb) (seq_at (hist lb) (hist_u lb)) B lb) K m' blk' hblk lb'
+  | None => callx ext cprog fuel (S (S (S (S d)))) F_lbuf_redo [VPtr bl 0] m = Ok (VInt 1, m)
+  end.
+Proof. exact tr_lbuf_redo_bounded_b. Qed.
+Print Assumptions C04_tr_lbuf_redo_bounded_b.
+
+Theorem C04_tr_lbuf_edit_bounded : forall (ext : nat -> list val -> mem -> res (val * mem)) (fuelR dR : nat), ext_is_replace ext fuelR dR ->
+  forall (d fuel : nat) (K : Z), K <= 2147483647 ->
+  forall (m : mem) (bl : nat) (blk : block) (bh : nat) (hblk : block) (lb : lbuf) (bufv : val) (buf : option (list N)) (b e : nat) (B : Z),
+  cp_oracle ext Tc bl -> urep Tc m bl blk bh hblk lb -> bufarg m bl bh bufv buf ->
+  (forall (bb : nat) (o : Z), bufv = VPtr bb o -> ~ In bb (log_blocks hblk 0 (length (hist lb)))) ->
+  (forall (bb : nat) (o : Z) fp, bufv = VPtr bb o -> Tc m (tcells blk) fp (ln lb) -> ~ In bb fp) ->
+  (forall (bb : nat) s (o : Z), bufv = VPtr bb o -> str_at m bb s -> Z.of_nat (length s) + 2 <= 2147483647) ->
+  (b <= e)%nat -> i31 e -> i31 (length (ln lb) + linecount buf) -> Z.of_nat (hist_sz lb) * 2 <= 2147483647 ->
+  (length (hist lb) - hist_u lb < fuel)%nat -> (linecount buf < fuel)%nat -> (28 < fuel)%nat ->
+  let b' := Nat.min b (length (ln lb)) in let e' := Nat.min e (length (ln lb)) in
+  0 <= B -> size_ok fuelR B buf ->
+  (forall (m1 : mem) (blk1 : block) (bh1 : nat) (hblk1 : block),
+     callx ext cprog fuel (S (S (S (S d)))) F_lbuf_opt [VPtr bl 0; bufv; VInt (Z.of_nat b'); VInt (Z.of_nat (e' - b'))] m = Ok (VUndef, m1) ->
+     urep Tc m1 bl blk1 bh1 hblk1 (lbuf_opt lb buf b' (e' - b')) -> bnd B K m1 blk1 hblk1 (lbuf_opt lb buf b' (e' - b'))) ->
+  andb (Nat.eqb b' e') (is_none buf) = false ->
+  exists (m' : mem) (blk' : block) (bh' : nat) (hblk' : block),
+    callx ext cprog fuel (S (S (S (S (S d))))) F_lbuf_edit [VPtr bl 0; bufv; VInt (Z.of_nat b); VInt (Z.of_nat e)] m = Ok (VUndef, m') /\
+    urep Tc m' bl blk' bh' hblk' (lbuf_edit lb buf b e) /\ bnd (B + Z.of_nat (linecount buf)) K m' blk' hblk' (lbuf_edit lb buf b e).
+Proof. exact tr_lbuf_edit_bounded. Qed.
+Print Assumptions C04_tr_lbuf_edit_bounded.
+
+Theorem C04_tr_undo_inverts_edit_bounded : forall (ext : nat -> list val -> mem -> res (val * mem)) (fuelR dR : nat), ext_is_replace ext fuelR dR ->
+  forall (d fuel : nat) (K : Z), K <= 2147483647 ->
+  forall (m : mem) (bl : nat) (blk : block) (bh : nat) (hblk : block) (lb : lbuf) (bufv : val) (buf : option (list N)) (b e : nat) (B : Z),
+  cp_oracle ext Tc bl -> urep Tc m bl blk bh hblk lb -> bufarg m bl bh bufv buf ->
+  (forall (bb : nat) (o : Z), bufv = VPtr bb o -> ~ In bb (log_blocks hblk 0 (length (hist lb)))) ->
+  (forall (bb : nat) (o : Z) fp, bufv = VPtr bb o -> Tc m (tcells blk) fp (ln lb) -> ~ In bb fp) ->
+  (forall (bb : nat) s (o : Z), bufv = VPtr bb o -> str_at m bb s -> Z.of_nat (length s) + 2 <= 2147483647) ->
+  (b <= e)%nat -> i31 e -> i31 (length (ln lb) + linecount buf) -> Z.of_nat (hist_sz lb) * 2 <= 2147483647 ->
+  (length (hist lb) + 35 < fuel)%nat -> (linecount buf < fuel)%nat ->
+  let b' := Nat.min b (length (ln lb)) in let e' := Nat.min e (length (ln lb)) in
+  0 <= B ->
+  (forall (m1 : mem) (blk1 : block) (bh1 : nat) (hblk1 : block),
+     callx ext cprog fuel (S (S (S (S d)))) F_lbuf_opt [VPtr bl 0; bufv; VInt (Z.of_nat b'); VInt (Z.of_nat (e' - b'))] m = Ok (VUndef, m1) ->
+     urep Tc m1 bl blk1 bh1 hblk1 (lbuf_opt lb buf b' (e' - b')) -> bnd B K m1 blk1 hblk1 (lbuf_opt lb buf b' (e' - b'))) ->
+  andb (Nat.eqb b' e') (is_none buf) = false -> lone_edit lb -> Forall line_wf (ln lb) ->
+  let lb1 := lbuf_edit lb buf b e in let lb2 := undo1 lb1 in
+  size_ok fuelR B buf ->
+  (let lo := nth (hist_u lb1 - 1) (hist lb1) dflt in size_ok fuelR (B + Z.of_nat (linecount buf)) (del lo)) ->
+  (let lo1 := nth (hist_u lb1 - 1) (hist lb1) dflt in let lo := nth (hist_u lb2) (hist lb2) dflt in
+   size_ok fuelR (B + Z.of_nat (linecount buf) + Z.of_nat (linecount (del lo1))) (ins lo)) ->
+  exists (m1 m2 m3 : mem) (blk2 blk3 : block) (bh' : nat) (hblk' : block),
+    callx ext cprog fuel (S (S (S (S (S d))))) F_lbuf_edit [VPtr bl 0; bufv; VInt (Z.of_nat b); VInt (Z.of_nat e)] m = Ok (VUndef, m1) /\
+    callx ext cprog fuel (S (S (S (S d)))) F_lbuf_undo [VPtr bl 0] m1 = Ok (VInt 0, m2) /\
+    callx ext cprog fuel (S (S (S (S d)))) F_lbuf_redo [VPtr bl 0] m2 = Ok (VInt 0, m3) /\
+    urep Tc m2 bl blk2 bh' hblk' lb2 /\ ln lb2 = ln lb /\
+    urep Tc m3 bl blk3 bh' hblk' (redo1 lb2) /\ ln (redo1 lb2) = edit_text (ln lb) buf b e.
+Proof. exact tr_undo_inverts_edit_bounded. Qed.
+Print Assumptions C04_tr_undo_inverts_edit_bounded.
+End C04_translated_chain.
